@@ -17,6 +17,18 @@ type G struct {
 	I    int64
 	V    int
 	Args []*G
+	Q    bool // a proper list of one-letter atoms written as a double-quoted string (double_quotes=chars): string-backed in the engine
+}
+
+// gstr is the list of the characters of s, written as "s"
+func gstr(s string) *G {
+	var es []*G
+	for _, r := range s {
+		es = append(es, ga(string(r)))
+	}
+	l := glist(es, nil)
+	l.Q = len(es) > 0
+	return l
 }
 
 func gv(i int) *G            { return &G{K: 'v', V: i} }
@@ -59,6 +71,13 @@ func (g *G) text() string {
 			t = t.Args[1]
 		}
 		if t.K == 'a' && t.S == "[]" {
+			if g.Q {
+				q := ""
+				for x := g; x.K == 'c'; x = x.Args[1] {
+					q += x.Args[0].S
+				}
+				return `"` + q + `"`
+			}
 			return "[" + strings.Join(es, ",") + "]"
 		}
 		return "[" + strings.Join(es, ",") + "|" + t.text() + "]"
@@ -548,7 +567,7 @@ func renumber(g *G) *G {
 			}
 			return gv(n)
 		case 'c':
-			y := &G{K: 'c', S: x.S}
+			y := &G{K: 'c', S: x.S, Q: x.Q}
 			for _, a := range x.Args {
 				y.Args = append(y.Args, walk(a))
 			}
